@@ -103,7 +103,7 @@ func readTmp(c *Ctx, name string) string {
 // replace "-i <file>" and the bytes for stdin.
 func presentTrees(c *Ctx, r *rand.Rand, base string, texts []string, plain bool) (args []string, stdin string, mode string) {
 	doc := strings.Join(texts, "\n") + "\n"
-	modes := []string{"file", "file", "gz", "stdin"}
+	modes := []string{"file", "file", "gz", "stdin", "file-crlf", "file-no-final-newline"}
 	if plain {
 		modes = append(modes, "nexus", "phyloxml")
 	}
@@ -111,6 +111,14 @@ func presentTrees(c *Ctx, r *rand.Rand, base string, texts []string, plain bool)
 	switch mode {
 	case "stdin":
 		return nil, doc, mode
+	case "file-crlf": // a file written on Windows
+		if strings.ContainsAny(strings.Join(texts, ""), "\r\n") {
+			mode = "file"
+			break
+		}
+		return []string{"-i", tmpFile(c, base+".nw", strings.ReplaceAll(doc, "\n", "\r\n"))}, "", mode
+	case "file-no-final-newline":
+		return []string{"-i", tmpFile(c, base+".nw", strings.TrimSuffix(doc, "\n"))}, "", mode
 	case "gz":
 		var b bytes.Buffer
 		z := gzip.NewWriter(&b)
